@@ -333,6 +333,8 @@ def judge(scn, out, m, exp):
         if kind == "engine":
             return [("ENGINE", text)]
         return [(kind, text)]
+    if out["sig"] in (24, 9):
+        return [("hang", "the run used 60 s of CPU time without terminating (a run takes well under a second)")]
     if out["sig"]:
         return [("crash", "signal %d" % out["sig"])]
     if out["status"] != 0:
